@@ -66,7 +66,7 @@ func (e *Engine) genContractTest(con *Contract) (src string, testName string, nc
 	sig := fn.Signature
 	// parameter types must be generable
 	for _, pt := range ci.ptypes {
-		if !generable(pt, 0) {
+		if !generable(pt, 0) && !(con.mode == "bounded" && generableLoose(pt, 0)) {
 			return "", "", 0, "parameter type " + pt.String() + " is not generable"
 		}
 	}
@@ -182,6 +182,32 @@ func sanitizeIdent(s string) string {
 		}
 	}
 	return sb.String()
+}
+
+// generableLoose: as generable, but map-typed fields are accepted (left nil by the
+// generator); only for bounded stand-ins, whose `prepare` statements build the value.
+func generableLoose(t types.Type, depth int) bool {
+	if depth > 4 {
+		return false
+	}
+	switch u := t.Underlying().(type) {
+	case *types.Map:
+		return true
+	case *types.Slice:
+		return generableLoose(u.Elem(), depth+1)
+	case *types.Array:
+		return generableLoose(u.Elem(), depth+1)
+	case *types.Pointer:
+		return generableLoose(u.Elem(), depth+1)
+	case *types.Struct:
+		for i := 0; i < u.NumFields(); i++ {
+			if !generableLoose(u.Field(i).Type(), depth+1) {
+				return false
+			}
+		}
+		return true
+	}
+	return generable(t, depth)
 }
 
 func generable(t types.Type, depth int) bool {
